@@ -6,7 +6,8 @@ From V.c19 Require Import C19Model C19Spec C19InvProofs C19TrackProofs C19DescPr
 From V.c19 Require Import C19RecModel C19RecProofs C19RecLinkProofs.
 From V.c19 Require Import C19BoxCodec C19BoxModel.
 From V.c19 Require Import C19TreeModel C19TreeProofs C19TreeScopeProofs C19LeafProofs C19PrintParseProofs C19RoundtripProofs C19ArgsProofs.
-From V.c19 Require Import C19FragModel C19FragProofs C19DimsProofs.
+From V.c19 Require Import C19FragModel C19FragProofs C19DimsProofs C19EsdsProofs C19AacProofs.
+From V.c18 Require C18Model C18EntryModel.
 From V.c15 Require C15Model C15Spec C15HevcModel C15HevcSpec C15Examples C15HevcExamples.
 From V.c05 Require C05Model C05FragModel C05HistProofs C05GhostProofs C05ReadProofs C05RoundProofs C05SingleProofs.
 
@@ -172,6 +173,39 @@ Theorem C19_descriptor_aac :
 Proof. exact set_aac_ok. Qed.
 Print Assumptions C19_descriptor_aac.
 
+(* C19_descriptor_aac through the TYPED tree and C18's configuration codec (coq/c18, read-only), general in the frequency
+   (every f below 2^23, so that the doubled extension frequency of the HE types fits the 24-bit escape; no enumeration):
+   the sample entry of a successful SetAACDescriptor(o, f) is, in the box model, mp4a{esds} with the whole descriptor tree
+   typed (ES descriptor 1, DecoderConfigDescriptor 0x40/0x15, DecSpecificInfo, SLConfig 2; esds_leaf); that box prints and
+   parses back to itself with C01's decoder (so by C19_roundtrip the DECODED init holds exactly it); the DecConfig bytes
+   of its DecSpecificInfo are the bytes C18's model of AudioSpecificConfig.Encode writes for the configuration SUPPLIED
+   (cfg: object type o, sampling frequency f, channel configuration 2 -- 1 for HE-AAC v2 --, extension frequency 2f and
+   SBR / PS flags for the HE types), and C18's model of DecodeAudioSpecificConfig reads them back as that configuration. *)
+Theorem C19_descriptor_aac_typed :
+  forall t o f t',
+    f < 8388608 -> set_aac t o f = (OOk, t') ->
+    let chan := if o =? 29 then 1 else 2 in
+    let cfg := C18EntryModel.set_aac_asc o (Z.of_N f) in
+    exists asc e b,
+      sd_entries t' = sd_entries t ++ [e] /\ e = mkSE (BS "mp4a") 1 chan 16 (f mod 65536) (CfgEsds asc)
+      /\ entry_box e = Some b /\ b = preb (LAudio (BS "mp4a") 1 chan 16 (f mod 65536)) [leafb (esds_leaf asc)]
+      /\ (exists enc, raw_box false b = Ok enc /\ lenN enc = size_box b
+            /\ forall fuel r2, (fuel_of b <= fuel)%nat -> decode_box fuel (enc ++ r2) = Ok (b, r2))
+      /\ esds_dec_config (esds_leaf asc) = Some asc
+      /\ C18Model.encode_asc cfg = Ok asc /\ C18Model.decode_asc asc = Ok cfg
+      /\ C18Model.a_ot cfg = o /\ C18Model.a_freq cfg = Z.of_N f /\ C18Model.a_chan cfg = chan.
+Proof. exact aac_typed. Qed.
+Print Assumptions C19_descriptor_aac_typed.
+
+(* print-then-parse of the typed esds box around ANY decoder configuration of at most 100 bytes (one-byte size fields) *)
+Theorem C19_box_roundtrip_esds :
+  forall asc, lenN asc <= 100 ->
+    exists b, body_leaf (esds_leaf asc) (dflt_rsv (esds_leaf asc)) = Ok b /\ lenN b + 8 = size_leaf (esds_leaf asc)
+      /\ forall r2, dec_esds (hdr8 (leaf_name (esds_leaf asc)) (size_leaf (esds_leaf asc))) (b ++ r2)
+                    = Ok ((esds_leaf asc, dflt_rsv (esds_leaf asc)), r2).
+Proof. exact lpp_esds. Qed.
+Print Assumptions C19_box_roundtrip_esds.
+
 (* the mp4a sample rate is the supplied frequency below 2^16 ... *)
 Theorem C19_aac_samplerate :
   forall t o f t', f < 65536 -> set_aac t o f = (OOk, t') ->
@@ -336,7 +370,8 @@ Print Assumptions C19_descriptor_hevc_record.
 
 (* ------------------------------------------------------------------ the whole init segment in C01's box model
    ("C01's model" below is coq/c19/C19BoxCodec.v + C19BoxModel.v: a frozen, verbatim copy of coq/c01/C01Codec.v and
-   C01Model.v at /verif commit c35b7dd, see the banner of those files)
+   C01Model.v at /verif commit 88f92e5 (second snapshot: typed esds / hvcC / uuid / sgpd leaves, repaired hdlr Size and senc),
+   see the banner of those files)
    (C19TreeModel.v: tree_of s = the box tree of state s with every constant the constructors write; C01's
    encode_seq false / decode_file are the models of InitSegment.Encode / the box loop of DecodeFile; the
    correspondence compares encode_seq false (tree_of s) with the bytes of the real InitSegment.Encode) *)
@@ -374,9 +409,10 @@ Print Assumptions C19_built_fragmented_trex.
    the one encoded (every header, every field of every box, the reserved bytes the encoders write), the decoded file
    passes File.AddChild's fragmented-init test as soon as there is a track, and GetTrex finds a trex for every track id.
    Relative to: C01's model of the Go box codec (tied to the code by C01's correspondence and, for API-built inits, by
-   C19's byte comparison of InitSegment.Encode); esds, dac3, dec3, wvtt and stpp are opaque payloads in that model
-   (their typed decoding is evaluated by the search; stpp and the avcC/hvcC records have their own theorems);
-   decoding a media fragment against the init is not modelled beyond the trex lookup (search). *)
+   C19's byte comparison of InitSegment.Encode); esds is TYPED (the whole descriptor tree, C19_descriptor_aac_typed); dac3,
+   dec3, wvtt and stpp are opaque payloads in the snapshot of that model (their typed decoding is evaluated by the search;
+   stpp and the avcC/hvcC records have their own theorems); decoding media fragments against the decoded init:
+   C19_fragments_decode below (composition with C05). *)
 Theorem C19_roundtrip :
   forall (avc_parse : avc_parser) (hevc_parse : hevc_parser) (ops : list op),
     N.of_nat (length ops) < 4294967295 ->
@@ -754,4 +790,17 @@ Proof.
   split; [eexists; split; [vm_compute; reflexivity|]; split; vm_compute; reflexivity|].
   split; [vm_compute; reflexivity|]. split; [vm_compute; reflexivity|].
   eexists; split; [vm_compute; reflexivity|]; vm_compute; reflexivity.
+Qed.
+
+(* the hypotheses of C19_descriptor_aac_typed are satisfiable: HE-AAC v1 at 24000 Hz on an empty audio track: the
+   four configuration bytes are computed, the typed entry exists, C18 reads 5 / 24000 / 2 / 48000 back *)
+Example C19_descriptor_aac_typed_hyp :
+  exists t' asc,
+    set_aac (some_trak 1) 5 24000 = (OOk, t') /\ 24000 < 8388608
+    /\ map se_cfg (sd_entries t') = [CfgEsds asc] /\ lenN asc = 4
+    /\ C18Model.decode_asc asc = Ok (C18Model.mkAsc 5 2 24000%Z 48000%Z true false)
+    /\ lenN asc <= 100.
+Proof.
+  eexists; eexists. split; [vm_compute; reflexivity|]. split; [reflexivity|]. split; [reflexivity|].
+  split; [vm_compute; reflexivity|]. split; [vm_compute; reflexivity|]. vm_compute. discriminate.
 Qed.
